@@ -1,9 +1,20 @@
 (* C10_GenLink: every comparison, assertion, index assignment and size argument of
    muduo::net::Buffer as translated from the clang AST of the current sources (Gen_C10,
    regenerated on every check by lib/gen_C10.py) is the one the hand model C10_Model uses.
-   Sizes are the model's naturals embedded in Z; a pointer is an arbitrary address P plus
-   an offset.  Flipping an operator or changing an operand in Buffer.h / Buffer.cc makes
-   one of these lemmas false, i.e. breaks a proof obligation directly. *)
+   Sizes are the model's naturals embedded in Z; a pointer is an arbitrary address B (begin())
+   plus an offset.
+   Every generated fact is a function over the record [Gen_C10.obs] of NAMED observables
+   (review B-2): the link lemmas evaluate it on [buf_obs b B e] -- the record whose fields
+   o_readerIndex, o_writerIndex, o_buffer_size, o_readableBytes, o_writableBytes,
+   o_prependableBytes, o_peek, o_beginWrite, o_kCheapPrepend are the model's values for the
+   buffer [b], every other field taken from an ARBITRARY record [e] -- with the parameters /
+   locals that are in scope set by name ([set_len], [set_n], ...).  So a fact that reads another
+   observable than the model's test does (readableBytes() replaced by writableBytes() or
+   writerIndex_, len by a name that is not in scope, ...) evaluates to a different term and
+   the lemma no longer holds: flipping an operator or replacing an operand in Buffer.h /
+   Buffer.cc breaks a proof obligation directly.  (Two names that denote the same value at
+   that program point -- prependableBytes() and readerIndex_, the local `readable` and
+   readableBytes() -- are interchangeable, as they are in the C++.) *)
 From Coq Require Import List ZArith Lia Bool Arith NArith.
 From Coq.Strings Require Import Byte.
 From Muduo Require Import Base_Bytes Gen_Consts Gen_C10 C10_Model.
@@ -33,131 +44,204 @@ Proof. unfold kExtraBuf. apply Z2Nat.id. vm_compute. discriminate. Qed.
 
 Local Opaque kCheapPrepend kExtraBuf kInitialSize.
 
+(* the record of named observables of a model buffer whose storage begins at address B;
+   everything that is not a buffer observable comes from [e] *)
+Definition buf_obs (b : buf) (B : Z) (e : obs) : obs :=
+  {| o_readerIndex := Zn (ridx b);
+     o_writerIndex := Zn (widx b);
+     o_buffer_size := Zn (length (store b));
+     o_readableBytes := Zn (readableBytes b);
+     o_writableBytes := Zn (writableBytes b);
+     o_prependableBytes := Zn (prependableBytes b);
+     o_peek := B + Zn (ridx b);
+     o_beginWrite := B + Zn (widx b);
+     o_kCheapPrepend := kCP;
+     o_len := o_len e; o_initialSize := o_initialSize e; o_reserve := o_reserve e;
+     o_start := o_start e; o_end := o_end e; o_size := o_size e; o_n := o_n e;
+     o_writable := o_writable e; o_readable := o_readable e; o_x := o_x e; o_result := o_result e |}.
+
+(* only the three private members (what the bodies of the size observers may read) *)
+Definition mem_obs (b : buf) (e : obs) : obs :=
+  set_readerIndex (Zn (ridx b)) (set_writerIndex (Zn (widx b)) (set_buffer_size (Zn (length (store b))) e)).
+
+Ltac gl := unfold buf_obs, mem_obs; obs_red.
+
 (* ---- constructor, Buffer.h:48-56 ---------------------------------------------- *)
-Lemma gen_constructor n :
-  Buffer_init_buffer (Zn n) kCP = Zn (length (store (new_buf n))) /\
-  Buffer_init_readerIndex kCP = Zn (ridx (new_buf n)) /\
-  Buffer_init_writerIndex kCP = Zn (widx (new_buf n)) /\
-  Buffer_assert0 (Zn (readableBytes (new_buf n))) = true /\
-  Buffer_assert1 (Zn n) (Zn (writableBytes (new_buf n))) = true /\
-  Buffer_assert2 kCP (Zn (prependableBytes (new_buf n))) = true.
+Lemma gen_constructor n B e :
+  let o0 := set_initialSize (Zn n) (set_kCheapPrepend kCP e) in
+  let o := set_initialSize (Zn n) (buf_obs (new_buf n) B e) in
+  Buffer_init_buffer o0 = Zn (length (store (new_buf n))) /\
+  Buffer_init_readerIndex o0 = Zn (ridx (new_buf n)) /\
+  Buffer_init_writerIndex o0 = Zn (widx (new_buf n)) /\
+  Buffer_assert0 o = true /\
+  Buffer_assert1 o = true /\
+  Buffer_assert2 o = true.
 Proof.
+  cbn zeta.
   unfold Buffer_init_buffer, Buffer_init_readerIndex, Buffer_init_writerIndex,
-    Buffer_assert0, Buffer_assert1, Buffer_assert2,
-    readableBytes, writableBytes, prependableBytes, new_buf.
+    Buffer_assert0, Buffer_assert1, Buffer_assert2. gl.
+  unfold readableBytes, writableBytes, prependableBytes, new_buf.
   cbn [store ridx widx]. rewrite repeat_length, <- kCP_nat.
   repeat split; zb.
 Qed.
 
 (* ---- size observers, Buffer.h:68-75 -------------------------------------------- *)
-Lemma gen_observers b : (ridx b <= widx b)%nat -> (widx b <= length (store b))%nat ->
-  readableBytes_ret (Zn (ridx b)) (Zn (widx b)) = Zn (readableBytes b) /\
-  writableBytes_ret (Zn (length (store b))) (Zn (widx b)) = Zn (writableBytes b) /\
-  prependableBytes_ret (Zn (ridx b)) = Zn (prependableBytes b).
+Lemma gen_observers b e : (ridx b <= widx b)%nat -> (widx b <= length (store b))%nat ->
+  readableBytes_ret (mem_obs b e) = Zn (readableBytes b) /\
+  writableBytes_ret (mem_obs b e) = Zn (writableBytes b) /\
+  prependableBytes_ret (mem_obs b e) = Zn (prependableBytes b).
 Proof.
-  intros H1 H2. unfold readableBytes_ret, writableBytes_ret, prependableBytes_ret,
-    readableBytes, writableBytes, prependableBytes. repeat split; lia.
+  intros H1 H2. unfold readableBytes_ret, writableBytes_ret, prependableBytes_ret. gl.
+  unfold readableBytes, writableBytes, prependableBytes. repeat split; lia.
 Qed.
 
-(* ---- pointer preconditions: findCRLF(start), findEOL(start), retrieveUntil(end) -- *)
-Lemma gen_pointer_asserts b P off :
-  let start := P + off in
-  let bw := P + Zn (readableBytes b) in
-  (findCRLF1_assert0 P start && findCRLF1_assert1 bw start = ptr_ok off b) /\
-  (findEOL1_assert0 P start && findEOL1_assert1 bw start = ptr_ok off b) /\
-  (retrieveUntil_assert0 start P && retrieveUntil_assert1 bw start = ptr_ok off b) /\
-  retrieveUntil_call0_retrieve start P = off.
+(* ---- pointer preconditions: findCRLF(start), findEOL(start), retrieveUntil(end) --
+   peek() = B + readerIndex_, beginWrite() = B + writerIndex_, the argument = peek() + off *)
+Lemma gen_pointer_asserts b B off e : (ridx b <= widx b)%nat ->
+  let os := set_start (B + Zn (ridx b) + off) (buf_obs b B e) in
+  let oe := set_end (B + Zn (ridx b) + off) (buf_obs b B e) in
+  (findCRLF1_assert0 os && findCRLF1_assert1 os = ptr_ok off b) /\
+  (findEOL1_assert0 os && findEOL1_assert1 os = ptr_ok off b) /\
+  (retrieveUntil_assert0 oe && retrieveUntil_assert1 oe = ptr_ok off b) /\
+  retrieveUntil_call0_retrieve oe = off.
 Proof.
-  cbn zeta. unfold findCRLF1_assert0, findCRLF1_assert1, findEOL1_assert0, findEOL1_assert1,
-    retrieveUntil_assert0, retrieveUntil_assert1, retrieveUntil_call0_retrieve, ptr_ok.
+  intros H. cbn zeta. unfold findCRLF1_assert0, findCRLF1_assert1, findEOL1_assert0, findEOL1_assert1,
+    retrieveUntil_assert0, retrieveUntil_assert1, retrieveUntil_call0_retrieve, ptr_ok. gl.
+  unfold readableBytes.
   repeat split; zb.
 Qed.
 
 (* ---- retrieve family, Buffer.h:113-170 ------------------------------------------ *)
-Lemma gen_retrieve b n :
-  retrieve_assert0 (Zn n) (Zn (readableBytes b)) = (n <=? readableBytes b)%nat /\
-  retrieve_if0 (Zn n) (Zn (readableBytes b)) = (n <? readableBytes b)%nat /\
-  retrieve_set0_readerIndex (Zn n) (Zn (ridx b)) = Zn (ridx b + n) /\
-  retrieveAll_set0_readerIndex kCP = Zn (ridx (retrieveAll b)) /\
-  retrieveAll_set1_writerIndex kCP = Zn (widx (retrieveAll b)) /\
-  retrieveAsString_assert0 (Zn n) (Zn (readableBytes b)) = (n <=? readableBytes b)%nat /\
-  retrieveAsString_call0_retrieve (Zn n) = Zn n /\
-  retrieveAllAsString_call0_retrieveAsString (Zn (readableBytes b)) = Zn (readableBytes b).
+Lemma gen_retrieve b n B e :
+  let o := set_len (Zn n) (buf_obs b B e) in
+  retrieve_assert0 o = (n <=? readableBytes b)%nat /\
+  retrieve_if0 o = (n <? readableBytes b)%nat /\
+  retrieve_set0_readerIndex o = Zn (ridx b + n) /\
+  retrieveAll_set0_readerIndex (buf_obs b B e) = Zn (ridx (retrieveAll b)) /\
+  retrieveAll_set1_writerIndex (buf_obs b B e) = Zn (widx (retrieveAll b)) /\
+  retrieveAsString_assert0 o = (n <=? readableBytes b)%nat /\
+  retrieveAsString_call0_retrieve o = Zn n /\
+  retrieveAllAsString_call0_retrieveAsString (buf_obs b B e) = Zn (readableBytes b).
 Proof.
+  cbn zeta.
   unfold retrieve_assert0, retrieve_if0, retrieve_set0_readerIndex, retrieveAll_set0_readerIndex,
     retrieveAll_set1_writerIndex, retrieveAsString_assert0, retrieveAsString_call0_retrieve,
-    retrieveAllAsString_call0_retrieveAsString, retrieveAll.
+    retrieveAllAsString_call0_retrieveAsString, retrieveAll. gl.
   cbn [ridx widx]. rewrite <- kCP_nat. repeat split; zb.
 Qed.
 
-Lemma gen_widths :
-  retrieveInt64_call0_retrieve = Zn (wbytes W64) /\ retrieveInt32_call0_retrieve = Zn (wbytes W32) /\
-  retrieveInt16_call0_retrieve = Zn (wbytes W16) /\ retrieveInt8_call0_retrieve = Zn (wbytes W8) /\
-  appendInt64_call0_append = Zn (wbytes W64) /\ appendInt32_call0_append = Zn (wbytes W32) /\
-  appendInt16_call0_append = Zn (wbytes W16) /\ appendInt8_call0_append = Zn (wbytes W8) /\
-  prependInt64_call0_prepend = Zn (wbytes W64) /\ prependInt32_call0_prepend = Zn (wbytes W32) /\
-  prependInt16_call0_prepend = Zn (wbytes W16) /\ prependInt8_call0_prepend = Zn (wbytes W8).
+Lemma gen_widths e :
+  retrieveInt64_call0_retrieve e = Zn (wbytes W64) /\ retrieveInt32_call0_retrieve e = Zn (wbytes W32) /\
+  retrieveInt16_call0_retrieve e = Zn (wbytes W16) /\ retrieveInt8_call0_retrieve e = Zn (wbytes W8) /\
+  appendInt64_call0_append e = Zn (wbytes W64) /\ appendInt32_call0_append e = Zn (wbytes W32) /\
+  appendInt16_call0_append e = Zn (wbytes W16) /\ appendInt8_call0_append e = Zn (wbytes W8) /\
+  prependInt64_call0_prepend e = Zn (wbytes W64) /\ prependInt32_call0_prepend e = Zn (wbytes W32) /\
+  prependInt16_call0_prepend e = Zn (wbytes W16) /\ prependInt8_call0_prepend e = Zn (wbytes W8).
 Proof. repeat split; reflexivity. Qed.
 
-Lemma gen_peekInt_asserts b :
-  peekInt64_assert0 (Zn (readableBytes b)) = (wbytes W64 <=? readableBytes b)%nat /\
-  peekInt32_assert0 (Zn (readableBytes b)) = (wbytes W32 <=? readableBytes b)%nat /\
-  peekInt16_assert0 (Zn (readableBytes b)) = (wbytes W16 <=? readableBytes b)%nat /\
-  peekInt8_assert0 (Zn (readableBytes b)) = (wbytes W8 <=? readableBytes b)%nat.
+Lemma gen_peekInt_asserts b B e :
+  peekInt64_assert0 (buf_obs b B e) = (wbytes W64 <=? readableBytes b)%nat /\
+  peekInt32_assert0 (buf_obs b B e) = (wbytes W32 <=? readableBytes b)%nat /\
+  peekInt16_assert0 (buf_obs b B e) = (wbytes W16 <=? readableBytes b)%nat /\
+  peekInt8_assert0 (buf_obs b B e) = (wbytes W8 <=? readableBytes b)%nat.
 Proof.
-  unfold peekInt64_assert0, peekInt32_assert0, peekInt16_assert0, peekInt8_assert0.
+  unfold peekInt64_assert0, peekInt32_assert0, peekInt16_assert0, peekInt8_assert0. gl.
   cbn [wbytes]. repeat split; zb.
 Qed.
 
 (* ---- ensureWritableBytes / hasWritten / unwrite / prepend / shrink ---------------- *)
-Lemma gen_write_side b n :
-  ensureWritableBytes_if0 (Zn n) (Zn (writableBytes b)) = (writableBytes b <? n)%nat /\
-  ensureWritableBytes_call0_makeSpace (Zn n) = Zn n /\
-  ensureWritableBytes_assert0 (Zn n) (Zn (writableBytes b)) = (n <=? writableBytes b)%nat /\
-  hasWritten_assert0 (Zn n) (Zn (writableBytes b)) = (n <=? writableBytes b)%nat /\
-  hasWritten_set0_writerIndex (Zn n) (Zn (widx b)) = Zn (widx b + n) /\
-  unwrite_assert0 (Zn n) (Zn (readableBytes b)) = (n <=? readableBytes b)%nat /\
-  ((n <= widx b)%nat -> unwrite_set0_writerIndex (Zn n) (Zn (widx b)) = Zn (widx b - n)) /\
-  prepend_assert0 (Zn n) (Zn (prependableBytes b)) = (n <=? prependableBytes b)%nat /\
-  ((n <= ridx b)%nat -> prepend_set0_readerIndex (Zn n) (Zn (ridx b)) = Zn (ridx b - n)) /\
-  shrink_call0_ensureWritableBytes (Zn (readableBytes b)) (Zn n) = Zn (readableBytes b + n).
+Lemma gen_write_side b n B e :
+  let o := set_len (Zn n) (buf_obs b B e) in
+  ensureWritableBytes_if0 o = (writableBytes b <? n)%nat /\
+  ensureWritableBytes_call0_makeSpace o = Zn n /\
+  ensureWritableBytes_assert0 o = (n <=? writableBytes b)%nat /\
+  hasWritten_assert0 o = (n <=? writableBytes b)%nat /\
+  hasWritten_set0_writerIndex o = Zn (widx b + n) /\
+  unwrite_assert0 o = (n <=? readableBytes b)%nat /\
+  ((n <= widx b)%nat -> unwrite_set0_writerIndex o = Zn (widx b - n)) /\
+  prepend_assert0 o = (n <=? prependableBytes b)%nat /\
+  ((n <= ridx b)%nat -> prepend_set0_readerIndex o = Zn (ridx b - n)) /\
+  shrink_call0_ensureWritableBytes (set_reserve (Zn n) (buf_obs b B e)) = Zn (readableBytes b + n).
 Proof.
+  cbn zeta.
   unfold ensureWritableBytes_if0, ensureWritableBytes_call0_makeSpace, ensureWritableBytes_assert0,
     hasWritten_assert0, hasWritten_set0_writerIndex, unwrite_assert0, unwrite_set0_writerIndex,
-    prepend_assert0, prepend_set0_readerIndex, shrink_call0_ensureWritableBytes.
+    prepend_assert0, prepend_set0_readerIndex, shrink_call0_ensureWritableBytes. gl.
   repeat split; zb.
 Qed.
 
-(* ---- makeSpace, Buffer.h:390-409 -------------------------------------------------- *)
-Lemma gen_makeSpace b len :
-  makeSpace_if0 kCP (Zn len) (Zn (prependableBytes b)) (Zn (writableBytes b))
-    = (writableBytes b + prependableBytes b <? len + kCheapPrepend)%nat /\
-  makeSpace_call0_resize (Zn len) (Zn (widx b)) = Zn (widx b + len) /\
-  makeSpace_assert0 kCP (Zn (ridx b)) = (kCheapPrepend <? ridx b)%nat /\
-  makeSpace_set0_readerIndex kCP = Zn kCheapPrepend /\
-  makeSpace_set1_writerIndex (Zn (readableBytes b)) (makeSpace_set0_readerIndex kCP)
+(* ---- makeSpace, Buffer.h:390-409 --------------------------------------------------
+   the compaction branch: `readable` is the local copy of readableBytes() taken before the
+   indices move; set1 reads the reader index set0 has just stored; assert1 is evaluated on the
+   buffer after both assignments *)
+Lemma gen_makeSpace b len B e : (ridx b <= widx b)%nat ->
+  let o := set_len (Zn len) (buf_obs b B e) in
+  let o1 := set_readable (Zn (readableBytes b)) o in
+  let b' := mkBuf (store b) kCheapPrepend (kCheapPrepend + readableBytes b) 0 in
+  makeSpace_if0 o = (writableBytes b + prependableBytes b <? len + kCheapPrepend)%nat /\
+  makeSpace_call0_resize o = Zn (widx b + len) /\
+  makeSpace_assert0 o = (kCheapPrepend <? ridx b)%nat /\
+  makeSpace_set0_readerIndex o1 = Zn kCheapPrepend /\
+  makeSpace_set1_writerIndex (set_readerIndex (makeSpace_set0_readerIndex o1) o1)
     = Zn (kCheapPrepend + readableBytes b) /\
-  makeSpace_assert1 (Zn (readableBytes b)) (Zn (readableBytes b)) = true.
+  makeSpace_assert1 (set_readable (Zn (readableBytes b)) (set_len (Zn len) (buf_obs b' B e))) = true.
 Proof.
+  intros H. cbn zeta.
   unfold makeSpace_if0, makeSpace_call0_resize, makeSpace_assert0, makeSpace_set0_readerIndex,
-    makeSpace_set1_writerIndex, makeSpace_assert1.
+    makeSpace_set1_writerIndex, makeSpace_assert1. gl.
+  unfold readableBytes, writableBytes, prependableBytes. cbn [ridx widx store].
   rewrite <- kCP_nat. repeat split; zb.
 Qed.
 
-(* ---- readFd, Buffer.cc:25-57 -------------------------------------------------------- *)
-Lemma gen_readFd b n :
-  readFd_set0_iov_len (Zn (writableBytes b)) = Zn (writableBytes b) /\
-  readFd_set1_iov_len = Zn kExtraBuf /\
-  readFd_let_iovcnt (Zn (writableBytes b)) = Zn (readFd_iovcnt b) /\
-  readFd_if0 (-1) = true /\ readFd_if0 (Zn n) = false /\
-  readFd_if1 (Zn n) (Zn (writableBytes b)) = (n <=? writableBytes b)%nat /\
-  readFd_set2_writerIndex (Zn n) (Zn (widx b)) = Zn (widx b + n) /\
-  readFd_set3_writerIndex (Zn (length (store b))) = Zn (length (store b)) /\
-  ((writableBytes b <= n)%nat -> readFd_call0_append (Zn n) (Zn (writableBytes b)) = Zn (n - writableBytes b)) /\
-  readFd_ret (Zn n) = Zn n.
+(* ---- readFd, Buffer.cc:25-57 --------------------------------------------------------
+   `writable` is the local copy of writableBytes() taken on entry, `n` the result of readv *)
+Lemma gen_readFd b n B e :
+  let o := set_n (Zn n) (set_writable (Zn (writableBytes b)) (buf_obs b B e)) in
+  let oerr := set_n (-1) (set_writable (Zn (writableBytes b)) (buf_obs b B e)) in
+  readFd_set0_iov_len o = Zn (writableBytes b) /\
+  readFd_set1_iov_len o = Zn kExtraBuf /\
+  readFd_let_iovcnt o = Zn (readFd_iovcnt b) /\
+  readFd_if0 oerr = true /\ readFd_if0 o = false /\
+  readFd_if1 o = (n <=? writableBytes b)%nat /\
+  readFd_set2_writerIndex o = Zn (widx b + n) /\
+  readFd_set3_writerIndex o = Zn (length (store b)) /\
+  ((writableBytes b <= n)%nat -> readFd_call0_append o = Zn (n - writableBytes b)) /\
+  readFd_ret o = Zn n /\ readFd_ret oerr = (-1).
 Proof.
+  cbn zeta.
   unfold readFd_set0_iov_len, readFd_set1_iov_len, readFd_let_iovcnt, readFd_if0, readFd_if1,
-    readFd_set2_writerIndex, readFd_set3_writerIndex, readFd_call0_append, readFd_ret, readFd_iovcnt.
+    readFd_set2_writerIndex, readFd_set3_writerIndex, readFd_call0_append, readFd_ret, readFd_iovcnt. gl.
   pose proof kExtra_nat as HE. change Gen_Consts.Buffer_extrabuf_size with 65536 in HE.
   repeat split; zb.
 Qed.
+
+(* ---- append overloads, the lengths handed to memchr / memcpy / string(ptr, len) ----------- *)
+Lemma gen_append_lengths b n B off e : (ridx b <= widx b)%nat ->
+  let o := set_len (Zn n) (buf_obs b B e) in
+  let os := set_start (B + Zn (ridx b) + off) (buf_obs b B e) in
+  append1_call0_append (set_size (Zn n) (buf_obs b B e)) = Zn n /\
+  append2_void_call0_append o = Zn n /\
+  append2_char_call0_ensureWritableBytes o = Zn n /\
+  append2_char_call1_hasWritten o = Zn n /\
+  findEOL0_memchr0_len (buf_obs b B e) = Zn (readableBytes b) /\
+  findEOL1_memchr0_len os = Zn (readableBytes b) - off /\
+  peekInt64_memcpy0_len e = Zn (wbytes W64) /\ peekInt32_memcpy0_len e = Zn (wbytes W32) /\
+  peekInt16_memcpy0_len e = Zn (wbytes W16) /\
+  retrieveAsString_string0_len o = Zn n.
+Proof.
+  intros H. cbn zeta.
+  unfold append1_call0_append, append2_void_call0_append, append2_char_call0_ensureWritableBytes,
+    append2_char_call1_hasWritten, findEOL0_memchr0_len, findEOL1_memchr0_len, peekInt64_memcpy0_len,
+    peekInt32_memcpy0_len, peekInt16_memcpy0_len, retrieveAsString_string0_len. gl.
+  unfold readableBytes. cbn [wbytes]. repeat split; zb.
+Qed.
+
+(* ---- the integer casts the expression translator looks through (review B-3) --------------
+   exactly one narrowing cast in Buffer.h/.cc: toStringPiece()'s static_cast<int>(readableBytes());
+   exactly one signed value widened to size_t: StringPiece::size() in append(const StringPiece&);
+   both are the 32-bit int of C10_Model.int_cast, and the operand of the first is the model's *)
+Lemma gen_int_casts b B e :
+  narrowing_casts = 1 /\ signed_widening_casts = 1 /\
+  toStringPiece_narrow0 = int_bits /\ append1_widen_signed0 = int_bits /\
+  int_cast (toStringPiece_narrow0_arg (buf_obs b B e)) = toStringPiece_len b.
+Proof. repeat split; reflexivity. Qed.
